@@ -50,6 +50,8 @@ pub enum Field {
     DropCompression,
     DropDescs,
     DupDesc,
+    /// n descriptors stored back to back from offset 0, each declaring `value` archive bytes
+    AdjacentRun(usize),
     ChunkDataOffset,
     LongVersion,
 }
@@ -105,6 +107,11 @@ pub fn single_mutations(ndesc: usize, nrebuild: usize, huge: bool) -> Vec<Mutn> 
     add(Field::DropCompression, vec![0]);
     add(Field::DropDescs, vec![0]);
     add(Field::DupDesc, vec![0]);
+    // a run of adjacent chunks whose declared sizes add up to far more than any one chunk may declare
+    add(Field::AdjacentRun(64), vec![1 << 28]);
+    if huge {
+        add(Field::AdjacentRun(3), vec![u32::MAX as u64]);
+    }
     add(Field::ChunkDataOffset, u64_alphabet());
     add(Field::LongVersion, vec![100_000]);
     v
@@ -187,6 +194,19 @@ pub fn apply_mutn(d: &mut codec::Dict, cdo: &mut Option<u64>, m: &Mutn) {
         Field::DupDesc => {
             if let Some(x) = d.chunk_descriptors.first().cloned() {
                 d.chunk_descriptors.push(x)
+            }
+        }
+        Field::AdjacentRun(n) => {
+            if let Some(x) = d.chunk_descriptors.first().cloned() {
+                while d.chunk_descriptors.len() < *n {
+                    d.chunk_descriptors.push(x.clone());
+                }
+                let mut off = 0u64;
+                for c in d.chunk_descriptors.iter_mut() {
+                    c.archive_offset = off;
+                    c.archive_size = v as u32;
+                    off += v;
+                }
             }
         }
         Field::ChunkDataOffset => *cdo = Some(v),
